@@ -197,7 +197,7 @@ def run_mt(case):
 
 class C02(Prop):
     id = "C02"
-    lean_modules = ["VivModel.Props.C02", "VivModel.Props.C02Bits"]
+    lean_modules = ["VivModel.Props.C02", "VivModel.Props.C02Bits", "VivModel.Props.C02Src"]
     build_targets = ["VivModel.Model.Stream", "VivModel.Model.Sha1", "VivModel.Model.MT19937", "VivModel.Model.RandomBlock",
                      "VivModel.Model.Proto"]
     driver = "C02"
